@@ -591,7 +591,9 @@ def run_cost(ctx, T, flags):
         add(f"inv({nm})@b", A, lambda A=A: cola.inv(A) @ one(A), None)
         add(f"solve({nm},b)", A, lambda A=A: cola.solve(A, one(A)), None)
     add("exp(kronsum2,Auto())@b", KS, lambda: LA.exp(KS, Auto()) @ one(KS), None)
-    add("exp(kronsum3,Eig())@b", ops["kronsum3"], lambda: LA.exp(ops["kronsum3"], LA.Eig()) @ one(ops["kronsum3"]), None)
+    # (explicit Eig()/Eigh() on Kronecker sums are measured at n ~ 1000 below: on a tree where the structural rule is lost
+    # a dense LAPACK eig of a 10^4 x 10^4 matrix cannot be interrupted and would take the run far beyond its budget)
+    add("exp(kronsum3,Auto())@b", ops["kronsum3"], lambda: LA.exp(ops["kronsum3"], Auto()) @ one(ops["kronsum3"]), None)
     add("sqrt(kron2)@b", K2, lambda: LA.sqrt(K2) @ one(K2), None)
     add("sqrt(kron3,Auto())@b", K3, lambda: LA.sqrt(K3, Auto()) @ one(K3), None)
     add("pow(kron2,2.5,Auto())@b", K2, lambda: LA.pow(K2, 2.5, Auto()) @ one(K2), None)
